@@ -5,3 +5,4 @@ import TakVerif.Impl.Position
 import TakVerif.Impl.Move
 import TakVerif.Spec.Tak
 import TakVerif.Impl.WFBoard
+import TakVerif.Impl.Result
